@@ -40,6 +40,60 @@ check('C06', 'other',
       'Trusted: the 20-line concretisation gamma(), CrossHair\'s int/enum models, z3. Outside: every __infer_* rule, multiplicity.',
       'DESIGN.md section 4, C06')
 
+check('C08', 'other',
+      'bounded symbolic execution of the real statement dispatch / unit / group capability bookkeeping (CrossHair + z3), sub-compiler outcomes symbolic',
+      'Solver-decided over every top-level statement kind (hand-built AST nodes) x every outcome of the schema-dependent sub-compilers '
+      '(has_dml, migration transaction action, configuration scope): the capability set of the statement, of its QueryUnit and of '
+      'the QueryUnitGroup contains the capability the statement needs; a group carries exactly the union of its units. The half of '
+      'C08 about has_dml being recorded in every nesting context needs real compilation and is not decided.',
+      'Trusted: expected() table in the harness; the six sub-compilers that need the std schema are stand-ins with symbolic outcomes.',
+      'DESIGN.md section 4, C08')
+
+check('C09', 'model_checking',
+      'bounded model checking of the real transaction-state and compile-layer code by symbolic execution (CrossHair + z3) against a PostgreSQL transaction model',
+      'Every history inside the bound - operation kinds, savepoint names (with repeats), backend-failure placements as symbolic choices - '
+      'is executed on the real dbstate.Transaction / CompilerConnectionState and, for statements, through the real '
+      '_compile_dispatch_ql/_make_query_unit; after every step the abstraction of the real state equals a PostgreSQL-style model and '
+      'every statement is compiled against the state the model exposes. Bounded (<= 3-4 operations / recipe prefix + <= 2-3 statements).',
+      'Trusted: the 60-line transaction model; the transcription of the Cython server bookkeeping (dbview/execute/binary.pyx); DDL and '
+      'CONFIGURE are represented by the state-mutating call their compilation ends in. Known finding F11 listed in known_findings.json.',
+      'DESIGN.md section 4, C09')
+
+check('C14', 'other',
+      'bounded symbolic execution of the real descriptor-id key builders (CrossHair + z3 string theory), uuid5 replaced by the identity',
+      'Solver-decided injectivity of the strings hashed into descriptor ids over symbolic element names (|s| <= 2-3, all of Unicode), '
+      'sub-type ids, cardinalities and flags: equal ids imply equal descriptions, within and across the id functions. Only this last '
+      'sentence of C14 is decidable here; faithfulness of descriptors to compiled queries needs the parser.',
+      'Trusted: SHA-1/uuid5 collision freedom (stubbed by identity). Known finding F5 (":" in names) listed in known_findings.json.',
+      'DESIGN.md section 4, C14')
+
+check('C17', 'model_checking',
+      'bounded model checking of the real compiler-pool / worker state synchronisation by symbolic execution (CrossHair + z3) with injected transfer faults',
+      'Every history inside the bound - which worker, which database, which of the five state parts changed and how (new, new empty map, '
+      'back to the previous object), which fault (compiler error, failed unpickling of a chosen part, lost request/response) - runs '
+      'through the real AbstractPool.compile/_compute_compile_preargs/BaseWorker.call and two private copies of the real worker module; '
+      'a request that reaches the compiler was compiled against exactly the supplied values and the server never believes a worker holds '
+      'state it does not hold.',
+      'Trusted: recorder COMPILER, consistency predicate; worker processes are in-process module copies; real pickle for transfers.',
+      'DESIGN.md section 4, C17')
+
+check('C18', 'other',
+      'bounded symbolic execution of the real quoting functions (CrossHair + z3 string theory) read back by a reference lexer validated against the real Rust lexer compiled from /repo',
+      'For every string / bytes value inside the bound (all of Unicode up to |s| 1-3 per form, ASCII |s| = 2, an adversarial alphabet up to '
+      '|s| 3-4, bytes |b| <= 1-2) the text produced by each real quoting function lexes as exactly one token of the expected kind with the '
+      'original value - decided by the solver per path, not sampled. Counterexamples are replayed on CPython and on the real lexer.',
+      'Trusted: PostgreSQL lexical model (PostgreSQL is not in the sandbox); CrossHair string/regex/Unicode models for coverage. The EdgeQL '
+      'reference lexer is NOT trusted: validated every run against the lexer compiled from tokenizer.rs/validation.rs/helpers.',
+      'DESIGN.md section 4, C18', engine='E1 CrossHair + real EdgeQL lexer (rustc)')
+
+check('C19', 'other',
+      'bounded symbolic execution of the real configuration operation layer (CrossHair + z3), values symbolic, json codec replaced by the identity',
+      'Solver-decided for every pre-state (setting present/absent per scope), every SET/RESET/ADD/REM with symbolic well- and ill-typed '
+      'values: lookup returns the most specific scope\'s value else the default, a rejected operation changes nothing, JSON round trip '
+      'preserves name/value/source/scope. Duration/ConfigMemory text codecs and DESCRIBE-as-CONFIGURE round trips are not decided.',
+      'Trusted: the scope-precedence model in the harness; hand-built FlatSpec stands for the generated spec.',
+      'DESIGN.md section 4, C19')
+
 UNDER_CONSTRUCTION = {}
 
 
